@@ -6,6 +6,7 @@ package __PKG__
 import (
 	"encoding/json"
 	"fmt"
+	"math/rand"
 	"os"
 	"strconv"
 	"runtime"
@@ -51,7 +52,7 @@ func verifNext(kind string) string {
 	verifMu.Lock()
 	defer verifMu.Unlock()
 	// values chosen by the environment model (json/rand failures, clock readings) are not consumed natively
-	for verifPos < len(verifDoc.Vector) && (len(verifDoc.Vector[verifPos].Kind) > 4 && verifDoc.Vector[verifPos].Kind[:4] == "ext-" || verifDoc.Vector[verifPos].Kind == "now") {
+	for verifPos < len(verifDoc.Vector) && (vstress() && verifDoc.Vector[verifPos].Kind == "sched" || len(verifDoc.Vector[verifPos].Kind) > 4 && verifDoc.Vector[verifPos].Kind[:4] == "ext-" || verifDoc.Vector[verifPos].Kind == "now") {
 		verifPos++
 	}
 	if verifPos >= len(verifDoc.Vector) {
@@ -163,6 +164,9 @@ func vgoid() string {
 }
 
 func vself() *verifThread {
+	if vstress() {
+		return nil
+	}
 	vs.mu.Lock()
 	defer vs.mu.Unlock()
 	if vs.byG == nil {
@@ -172,6 +176,9 @@ func vself() *verifThread {
 }
 
 func verifInterleave(on bool) {
+	if vstress() {
+		return
+	}
 	vs.mu.Lock()
 	defer vs.mu.Unlock()
 	vs.on = on
@@ -183,7 +190,27 @@ func verifInterleave(on bool) {
 	}
 }
 
+var verifStressWG sync.WaitGroup
+
+func vstress() bool { return verifDoc.Params["_stress"] > 0 }
+
+// vjitter widens race windows in stress replays
+func vjitter() {
+	if vstress() {
+		if n := rand.Intn(4); n > 0 {
+			time.Sleep(time.Duration(rand.Intn(150)) * time.Microsecond)
+		} else {
+			runtime.Gosched()
+		}
+	}
+}
+
 func verifGo(f func()) {
+	if vstress() {
+		verifStressWG.Add(1)
+		go func() { defer verifStressWG.Done(); f() }()
+		return
+	}
 	vs.mu.Lock()
 	t := &verifThread{id: len(vs.threads), wake: make(chan struct{}, 1)}
 	vs.threads = append(vs.threads, t)
@@ -245,6 +272,10 @@ func vpickLocked(from int) {
 }
 
 func verifJoin() {
+	if vstress() {
+		verifStressWG.Wait()
+		return
+	}
 	t := vself()
 	vs.mu.Lock()
 	t.state = 3
@@ -342,6 +373,7 @@ func (m *verifRWMutex) writerWaiting(self *verifThread) bool {
 func (m *verifRWMutex) acquire(mode byte) {
 	t := vself()
 	if t == nil {
+		vjitter()
 		if mode == 'W' {
 			m.real.Lock()
 		} else {
@@ -375,6 +407,7 @@ func (m *verifRWMutex) release(mode byte) {
 		} else {
 			m.real.RUnlock()
 		}
+		vjitter()
 		return
 	}
 	vpoint(t)
@@ -391,3 +424,36 @@ func (m *verifRWMutex) Lock()    { m.acquire('W') }
 func (m *verifRWMutex) Unlock()  { m.release('W') }
 func (m *verifRWMutex) RLock()   { m.acquire('R') }
 func (m *verifRWMutex) RUnlock() { m.release('R') }
+
+// verifSyncMap: sync.Map whose operations are schedule points (same decomposition of Range as the symbolic model:
+// a snapshot of the keys, then one Load per key)
+type verifSyncMap struct{ real sync.Map }
+
+func vmapPoint() {
+	if t := vself(); t != nil {
+		vpoint(t)
+	} else {
+		vjitter()
+	}
+}
+func (m *verifSyncMap) Load(k any) (any, bool) { vmapPoint(); return m.real.Load(k) }
+func (m *verifSyncMap) Store(k, v any)         { vmapPoint(); m.real.Store(k, v) }
+func (m *verifSyncMap) Delete(k any)           { vmapPoint(); m.real.Delete(k) }
+func (m *verifSyncMap) Range(f func(k, v any) bool) {
+	if vself() == nil {
+		m.real.Range(f)
+		return
+	}
+	vmapPoint()
+	var keys []any
+	m.real.Range(func(k, _ any) bool { keys = append(keys, k); return true })
+	for _, k := range keys {
+		v, ok := m.Load(k)
+		if !ok {
+			continue
+		}
+		if !f(k, v) {
+			break
+		}
+	}
+}
